@@ -3,7 +3,9 @@
 Pipeline (BUILDING.md):
   C09_Gen   (TLC: enumerate trees, check A-layer = M-layer + oracle laws + the
              restricted-environment lemma on the model, print the trees)
-  C09_Neg   (TLC: negative controls - seeded transcription bugs MUST be refuted)
+  negative controls: seeded transcription bugs MUST be refuted by TLC - as a start-up
+            assumption of C09_Gen / C09_Inst in every run, as separate C09_Neg_* /
+            C09_Inst_neg_* runs ending in "Invariant ... is violated" in the thorough tier
   drive     (real DependencyMapper / CachedDependencyMapper for all 72 flag settings,
              get_num_nodes, FlopCounterBase / FlopCounter / CSEAwareFlopCounter,
              evaluation under the restricted environment)
@@ -40,8 +42,105 @@ def flag_kwargs(raw):
                 composite_leaves=_CL[raw["cl"]])
 
 
+# ---- leaf classes harness/ser.py has no shape for ------------------------------------
+# spec side: [t |-> "Const", v |-> [k |-> "NaN" | "Wildcard" | "DotWildcard" | "StarWildcard" |
+# "FunctionSymbol" (, name)]].  They cross ser.from_json / ser.to_json as placeholder
+# variables and are plugged in / taken out by a generic walk over the dataclass fields.
+EXOTIC = ("NaN", "Wildcard", "DotWildcard", "StarWildcard", "FunctionSymbol")
+_PH = "\x00C09:"
+
+
+def _has_exotic(j):
+    if isinstance(j, dict):
+        if j.get("t") == "Const" and j["v"].get("k") in EXOTIC:
+            return True
+        return any(_has_exotic(v) for v in j.values())
+    if isinstance(j, list):
+        return any(_has_exotic(v) for v in j)
+    return False
+
+
+def _enc(j):
+    if isinstance(j, dict):
+        if j.get("t") == "Const" and j["v"].get("k") in EXOTIC:
+            return {"t": "Var", "name": _PH + j["v"]["k"] + ":" + j["v"].get("name", "")}
+        return {k: _enc(v) for k, v in j.items()}
+    if isinstance(j, list):
+        return [_enc(v) for v in j]
+    return j
+
+
+def _dec(j):
+    if isinstance(j, dict):
+        if j.get("t") == "Var" and j["name"].startswith(_PH):
+            _, k, name = j["name"].split(":", 2)
+            v = {"k": k}
+            if name:
+                v["name"] = name
+            return {"t": "Const", "v": v}
+        return {k: _dec(v) for k, v in j.items()}
+    if isinstance(j, list):
+        return [_dec(v) for v in j]
+    return j
+
+
+def _walk(o, leaf):
+    """Rebuild o (constructors only) with leaf(x) applied to every Expression leaf."""
+    import dataclasses
+
+    import pymbolic.primitives as prim
+    from immutabledict import immutabledict
+    r = leaf(o)
+    if r is not None:
+        return r
+    if isinstance(o, prim.Expression):
+        return type(o)(*[_walk(getattr(o, f.name), leaf) for f in dataclasses.fields(o)])
+    if isinstance(o, tuple):
+        return tuple(_walk(c, leaf) for c in o)
+    if isinstance(o, list):
+        return [_walk(c, leaf) for c in o]
+    if isinstance(o, immutabledict):
+        return immutabledict({k: _walk(v, leaf) for k, v in o.items()})
+    return o
+
+
+def _plug_leaf(o):
+    import pymbolic.primitives as prim
+    if isinstance(o, prim.Variable) and o.name.startswith(_PH):
+        _, k, name = o.name.split(":", 2)
+        return getattr(prim, k)(name) if name else getattr(prim, k)()
+    return None
+
+
+def _unplug_leaf(o):
+    import pymbolic.primitives as prim
+    if isinstance(o, (prim.NaN, prim.Wildcard, prim.DotWildcard, prim.StarWildcard,
+                      prim.FunctionSymbol)):
+        return prim.Variable(_PH + type(o).__name__ + ":" + getattr(o, "name", ""))
+    return None
+
+
+def from_json(j):
+    if not _has_exotic(j):
+        return ser.from_json(j)
+    with warnings.catch_warnings():
+        warnings.simplefilter("ignore")
+        return _walk(ser.from_json(_enc(j)), _plug_leaf)
+
+
+_EXOTIC_MODE = False       # set per case by drive_case: results may contain exotic leaves
+
+
+def to_json(e):
+    if not _EXOTIC_MODE:
+        return ser.to_json(e)
+    with warnings.catch_warnings():
+        warnings.simplefilter("ignore")
+        return _dec(ser.to_json(_walk(e, _unplug_leaf)))
+
+
 def _sorted_trees(res):
-    trees = [ser.to_json(x) for x in res]
+    trees = [to_json(x) for x in res]
     trees.sort(key=lambda t: json.dumps(t, sort_keys=True))
     return trees
 
@@ -94,7 +193,9 @@ def drive_case(case, extra):
                                               FlopCounterBase)
     import pymbolic.primitives as prim
 
-    expr = ser.from_json(case["e"])
+    global _EXOTIC_MODE
+    _EXOTIC_MODE = _has_exotic(case["e"])
+    expr = from_json(case["e"])
     table, rs, ix = {}, [], []
 
     def put(thunk):
@@ -197,7 +298,7 @@ def signatures(tree, fails):
 
 
 def judge_and_classify(recs, wd, out, flags):
-    shards = kit.write_shards(recs, wd / "trace", "c09", 1500)
+    shards = kit.write_shards(recs, wd / "trace", "c09", max(400, min(2500, len(recs) // 4 + 1)))
     verdicts, st, tr = kit.judge_shards("C09_Judge", "C09_Judge", shards)
     out.states += st
     out.transitions += tr
@@ -238,13 +339,20 @@ def generate(tier, seed, out):
     envs = [p["envs"] for p in printed if "envs" in p]
     flags = [p["flags"] for p in printed if "flags" in p]
     cases = [p for p in printed if "e" in p]
+    neg = [p["negcontrols"] for p in printed if "negcontrols" in p]
     if len(envs) != 1 or len(flags) != 1 or len(flags[0]) != 72 or not cases:
         raise kit.MachineryError("C09 generator printed no environments / flags / cases")
+    if neg != [len(NEG_BUGS)]:
+        raise kit.MachineryError("C09 generator did not evaluate its negative controls")
+    out.extra["negative_controls_refuted"] = neg[0]
     kit.log(f"C09: TLC generated {len(cases)} trees ({gen.distinct} states, {gen.wall:.1f}s); "
-            "A-layer = M-layer, oracle laws and the restricted-environment lemma hold on the model")
+            "A-layer = M-layer, oracle laws and the restricted-environment lemma hold on the model; "
+            f"{neg[0]} seeded transcription bugs refuted")
     nexh = len(cases)
     if tier == "thorough":
-        rnd = kit.run_tlc("C09_Gen", "C09_Gen_rand", simulate="num=6000", depth=12, seed=seed)
+        # -simulate num is per worker; every state of a behaviour is a complete tree
+        rnd = kit.run_tlc("C09_Gen", "C09_Gen_rand", simulate="num=60", depth=8, seed=seed,
+                          workers=8)
         kit.require_clean(rnd, "C09 random trees (-simulate)")
         out.add_tlc(rnd)
         more = [p for p in rnd.printed() if "e" in p]
@@ -260,20 +368,52 @@ def generate(tier, seed, out):
     for i, c in enumerate(uniq):
         c["id"] = i
     out.extra["trees_exhaustive"] = nexh
-    out.extra["trees_random_distinct"] = len(uniq) - nexh if len(uniq) >= nexh else 0
+    out.extra["trees_random_distinct"] = max(0, len(uniq) - nexh)
+    # anti-vacuity: every node kind of the property's quantifier must occur in the generated space
+    kinds = set()
+    for c in uniq:
+        kinds_in(c["e"], kinds)
+        if c["e"]["t"] == "Const" or _has_exotic(c["e"]):
+            kinds |= _const_kinds(c["e"])
+    missing = EXPECTED_KINDS - kinds
+    if missing:
+        raise kit.MachineryError(f"C09 coverage hole: node kinds never generated: {sorted(missing)}")
+    out.extra["node_kinds_covered"] = sorted(kinds)
     return uniq, envs[0], flags[0]
+
+
+EXPECTED_KINDS = {
+    "Var", "Const", "Sum", "Product", "Quotient", "FloorDiv", "Remainder", "Power", "LShift",
+    "RShift", "BitNot", "BitOr", "BitXor", "BitAnd", "LogNot", "LogOr", "LogAnd", "Cmp", "If",
+    "Min", "Max", "Call", "CallKw", "Sub", "Look", "CSE", "Tup", "List", "Slice", "Subst", "Deriv",
+    "NaN", "Wildcard", "DotWildcard", "StarWildcard", "FunctionSymbol"}
+
+
+def _const_kinds(e, acc=None):
+    acc = set() if acc is None else acc
+    if isinstance(e, dict):
+        if e.get("t") == "Const" and e["v"].get("k") in EXOTIC:
+            acc.add(e["v"]["k"])
+        for v in e.values():
+            _const_kinds(v, acc)
+    elif isinstance(e, list):
+        for v in e:
+            _const_kinds(v, acc)
+    return acc
 
 
 NEG_BUGS = ["kwdrop", "argsfn", "cseoff", "slicestep", "lookup", "ncall", "flopn", "cseper"]
 
 
 def negative_controls(out):
-    """Seeded bugs in the transcription must be refuted by TLC (can the model check fail?)."""
+    """Thorough tier / selftest: every seeded transcription bug, as its own TLC run, MUST end
+    in 'Invariant NegRefines is violated' (the quick tier evaluates the same controls as a
+    start-up assumption of C09_Gen, see NegControls in C09_Analyses.tla)."""
     def one(bug):
         r = kit.run_tlc("C09_Neg", f"C09_Neg_{bug}", workers=2, heap="1g", tag=f"C09_Neg.{bug}")
         return bug, r
     bad = []
-    with cf.ThreadPoolExecutor(max_workers=4) as ex:
+    with cf.ThreadPoolExecutor(max_workers=3) as ex:
         for bug, r in ex.map(one, ["none"] + NEG_BUGS):
             out.add_tlc(r)
             if bug == "none":
@@ -282,16 +422,21 @@ def negative_controls(out):
                 bad.append(bug)
     if bad:
         raise kit.MachineryError(f"C09 negative controls not refuted by TLC: {bad}")
-    out.extra["negative_controls_refuted"] = len(NEG_BUGS)
-    kit.log(f"C09: {len(NEG_BUGS)} seeded transcription bugs refuted by TLC")
+    out.extra["negative_control_runs_refuted"] = len(NEG_BUGS)
+    kit.log(f"C09: {len(NEG_BUGS)} seeded transcription bugs refuted by TLC (separate runs)")
+
+
+def selftest(out):
+    from harness import c09inst
+    negative_controls(out)
+    c09inst.negative_controls(out)
 
 
 def run(tier, seed, out):
     wd = kit.fresh_workdir("C09")
-    with cf.ThreadPoolExecutor(max_workers=1) as ex:
-        neg = ex.submit(negative_controls, out)
-        cases, envs, flags = generate(tier, seed, out)
-        neg.result()
+    cases, envs, flags = generate(tier, seed, out)
+    if tier == "thorough":
+        negative_controls(out)
     extra = {"envs": envs, "flags": flags}
     recs = kit.drive("harness.c09", "drive_case", cases, extra, chunk=60)
     per_case = len(flags) * NVAR + 4 + 2 * len(envs)
@@ -304,12 +449,12 @@ def run(tier, seed, out):
 
     for r in recs:
         out.note_case(r["e"], nontrivial=r["e"]["t"] not in ("Var", "Const"))
-    step = max(1, len(recs) // 3)
+    pick = [recs[(len(recs) * k) // 7] for k in (2, 3, 5)]
     out.samples = [{"tree": r["e"],
                     "dependency_results_distinct": r["rs"][:4],
                     "result_index_per_flag_setting_x_variant": r["ix"][:12],
                     "num_nodes": r["nn"], "flops_base_cached_cseaware": r["fl"],
-                    "restricted_eval": r["ev"]} for r in recs[::step][:3]] + out.samples
+                    "restricted_eval": r["ev"]} for r in pick] + out.samples
     out.rule = ("TLC enumerates root skeleton x typed holes (every node kind over a composite "
                 "chain Call/CallWithKwargs/Subscript/Lookup/CSE nested at every position up to "
                 "depth 2 (quick) / 3 (thorough); pairs of independent holes for repeated "
